@@ -27,6 +27,7 @@ CONSTANTS Families,  \* the skeleton sub-grammars explored (one initial state ea
           MaxLen,    \* bound on the number of skeleton tokens (slots included)
           MaxIns,    \* bound on the number of independent insertions per variant
           MaxDep,    \* bound on the number of dependent insertions (fillers that need a name given by another filler)
+          WStride,   \* sampling of the contextual-keyword list of the cmp family (1 = all)
           RichMode   \* 0: core fillers only; 1: a rich filler only as the single insertion; 2: at most one rich filler among the insertions
 
 VARIABLES fam,       \* the skeleton sub-grammar of this behaviour
@@ -313,6 +314,13 @@ Expr(nt) ==
                        P("x-stmt-post", {}, <<"a", "@post", ";">>),
                        P("x-compound-assign", {}, <<"x", "+=", "a", "@postb", "-", "b", "@post", ";">>)}
 
+(* contextual keywords of TypeScript used as plain identifiers (sampled by WStride in the quick tier) *)
+WSeq == <<P("w-type", {}, <<"type">>), P("w-declare", {}, <<"declare">>), P("w-abstract", {}, <<"abstract">>), P("w-namespace", {}, <<"namespace">>),
+                    P("w-module", {}, <<"module">>), P("w-as", {}, <<"as">>), P("w-satisfies", {}, <<"satisfies">>), P("w-readonly", {}, <<"readonly">>),
+                    P("w-global", {}, <<"global">>), P("w-keyof", {}, <<"keyof">>), P("w-infer", {}, <<"infer">>), P("w-is", {}, <<"is">>), P("w-asserts", {}, <<"asserts">>),
+                    P("w-override", {}, <<"override">>), P("w-out", {}, <<"out">>), P("w-any", {}, <<"any">>), P("w-number", {}, <<"number">>), P("w-unique", {}, <<"unique">>),
+                    P("w-require", {}, <<"require">>), P("w-public", {}, <<"public">>), P("w-private", {}, <<"private">>), P("w-protected", {}, <<"protected">>), P("w-interface", {}, <<"interface">>), P("w-accessor", {}, <<"accessor">>),
+                    P("w-async", {}, <<"async">>), P("w-of", {}, <<"of">>), P("w-unknown", {}, <<"unknown">>), P("w-never", {}, <<"never">>), P("w-object", {}, <<"object">>)>>
 (* plain JavaScript whose reading is delicate in a TypeScript file: the converse direction *)
 Cmp(nt) ==
   CASE nt = "Prog" -> {P("k-lt-gt-paren", {"amb", "tsdiff"}, <<"x", "=", "a", "<", "b", ">", "(", "c", ")", ";">>),
@@ -375,12 +383,7 @@ Cmp(nt) ==
                        P("k-optional-chain-cond", {"amb"}, <<"x", "=", "a", "?", ".5", ":", "b", ";">>),
                        P("k-bang-bang", {"amb"}, <<"x", "=", "!", "!", "a", ";", "x", "=", "a", "!=", "b", ";", "x", "=", "a", "!==", "b", ";">>),
                        P("k-enum-like-iife", {}, <<"var", "E", ";", "(", "function", "(", "E", ")", "{", "E", "[", "E", "[", "'A'", "]", "=", "0", "]", "=", "'A'", ";", "}", ")", "(", "E", "||", "(", "E", "=", "{", "}", ")", ")", ";">>)}
-    [] nt = "W" -> {P("w-type", {}, <<"type">>), P("w-declare", {}, <<"declare">>), P("w-abstract", {}, <<"abstract">>), P("w-namespace", {}, <<"namespace">>),
-                    P("w-module", {}, <<"module">>), P("w-as", {}, <<"as">>), P("w-satisfies", {}, <<"satisfies">>), P("w-readonly", {}, <<"readonly">>),
-                    P("w-global", {}, <<"global">>), P("w-keyof", {}, <<"keyof">>), P("w-infer", {}, <<"infer">>), P("w-is", {}, <<"is">>), P("w-asserts", {}, <<"asserts">>),
-                    P("w-override", {}, <<"override">>), P("w-out", {}, <<"out">>), P("w-any", {}, <<"any">>), P("w-number", {}, <<"number">>), P("w-unique", {}, <<"unique">>),
-                    P("w-require", {}, <<"require">>), P("w-public", {}, <<"public">>), P("w-interface", {}, <<"interface">>), P("w-accessor", {}, <<"accessor">>),
-                    P("w-async", {}, <<"async">>), P("w-of", {}, <<"of">>), P("w-unknown", {}, <<"unknown">>), P("w-never", {}, <<"never">>), P("w-object", {}, <<"object">>)}
+    [] nt = "W" -> {WSeq[i] : i \in {j \in 1..Len(WSeq) : j % WStride = Phase % WStride}}
     [] nt = "W2" -> {P("w2-declare", {}, <<"declare">>), P("w2-type", {}, <<"type">>)}
 
 Module(nt) ==
